@@ -33,8 +33,11 @@ Expect(q) ==
       date   |-> TopoOrder(d, tips, ends, FALSE, TRUE),
       datefp |-> TopoOrder(d, tips, ends, TRUE, TRUE),
       \* what git prints without generation numbers (in-degrees over all shown parents)
-      topofpall |-> TopoOrderE(d, tips, ends, TRUE, FALSE, TRUE),
-      datefpall |-> TopoOrderE(d, tips, ends, TRUE, TRUE, TRUE)]
+      topofpall |-> TopoOrderE(d, tips, ends, TRUE, FALSE, "all"),
+      datefpall |-> TopoOrderE(d, tips, ends, TRUE, TRUE, "all"),
+      \* what git prints with generation numbers (commit-graph)
+      topofpgraph |-> TopoOrderE(d, tips, ends, TRUE, FALSE, "graph"),
+      datefpgraph |-> TopoOrderE(d, tips, ends, TRUE, TRUE, "graph")]
 
 \* design-level statements, checked on every enumerated world of <= LawN commits and every query
 Laws == (Done /\ N <= LawN) => \A q \in Covered : \A fp \in BOOLEAN : WalkLaws(World, q[1], q[2], fp)
